@@ -59,6 +59,8 @@ class ContractDB:
     # -- locating the real source ------------------------------------------------------------------
     def source(self, relpath):
         p = os.path.join(self.root, relpath)
+        if not os.path.exists(p) and os.path.exists(os.path.join(os.environ.get('VERIF_REPO', '/repo'), relpath)):
+            p = os.path.join(os.environ.get('VERIF_REPO', '/repo'), relpath)   # self-test scratch roots hold one file
         if p not in self._src_cache:
             with open(p) as f:
                 text = f.read()
